@@ -48,27 +48,34 @@ def run_standard(chk, spec, replay=None):
     real_bad = [b for b in bad if b[1] != 2]
     if structure_only:
         chk.notes.append("%d cases agree on the property's observable but differ from the model in stored structure (information only)" % len(structure_only))
-    # violation protocol
-    for case, code in real_bad[:20]:
+    # violation protocol: every disagreement is looked at (listed known findings must not
+    # crowd out anything else); at most 20 distinct violations are written out
+    nviol = 0
+    for case, code in real_bad:
+        key = spec["known_key"](case) if "known_key" in spec else None
+        if key and chk.is_known(key):
+            continue
+        if nviol >= 20:
+            continue
+        nviol += 1
         diag = spec["diagnose"](chk, case) if "diagnose" in spec else None
         robj = {"property": pid, "kind": "correspondence", "what": spec.get("what", "implementation output disagrees with the proved model on the property's observable"),
                 "op": case.get("op"), "input": case.get("input"), "code": code, "coq": case.get("coq"), "diagnosis": diag,
                 "replay_cmd": "./check %s --replay <this file>" % pid}
-        key = spec["known_key"](case) if "known_key" in spec else None
-        if key:
-            chk.known_or_violation(key, robj, key)
-        else:
-            chk.violation(robj)
+        chk.violation(robj)
     # verdicts computed on the implementation side (Rust vs Rust comparisons, panics, hangs)
     dbad = [d for d in directs if not d.get("ok")]
-    for d in dbad[:20]:
+    nviol = 0
+    for d in dbad:
+        key = spec["direct_known_key"](d) if "direct_known_key" in spec else None
+        if key and chk.is_known(key):
+            continue
+        if nviol >= 20:
+            continue
+        nviol += 1
         robj = {"property": pid, "kind": "direct", "what": d.get("what"), "input": d.get("input"),
                 "replay_cmd": "./check %s --replay <this file>" % pid}
-        key = spec["direct_known_key"](d) if "direct_known_key" in spec else None
-        if key:
-            chk.known_or_violation(key, robj, key)
-        else:
-            chk.violation(robj)
+        chk.violation(robj)
     if "post" in spec and hok:
         spec["post"](chk, recs, cases)
     if proof_broken and not chk.violations:
